@@ -27,6 +27,7 @@ func (g *gen) pick(xs []string) string { return xs[g.rng.Intn(len(xs))] }
 var multiCtors = []struct{ name, need string }{
 	{"MR_K0K1", ""}, {"MR_K0K1e", ""}, {"MR_K1K1", ""}, {"MR_K0K1_d", "K2"}, {"MR_K2K3e", "K0"},
 	{"OutP_K0K1", ""}, {"OutP_K2K3_d", "K0"}, {"OutN_K0K1", ""}, {"OutNN_K0K0", ""}, {"OutG_K0K1", ""},
+	{"OutGDup_K0K1K1", ""}, {"OutGDup_K2K3", ""},
 }
 
 // depOK says whether a consumer of the given lifetime may depend on unkeyed type t in state s.
